@@ -88,7 +88,7 @@ mutual
     value) for an enum; an array, or a single non-array value, for a list; an object for an input object. -/
 inductive AstOfJson (reg : Reg) : Ty → JV → Lit → Prop
   | null {ty : Ty} : AstOfJson reg ty .null .null
-  | nonNull {t : Ty} {j : JV} {l : Lit} : AstOfJson reg t j l → AstOfJson reg (.nonNull t) j l
+  | nonNull {t : Ty} {j : JV} {l : Lit} : t.isNonNull = false → AstOfJson reg t j l → AstOfJson reg (.nonNull t) j l
   | intInt {n : String} {k : Int} : reg.get? n = some .int → AstOfJson reg (.named n) (.int k) (.int k)
   | floatInt {n : String} {k : Int} : reg.get? n = some .float → AstOfJson reg (.named n) (.int k) (.int k)
   | floatFloat {n : String} {t : String} {i : Option Int} : reg.get? n = some .float →
